@@ -82,9 +82,9 @@ func (ep *exprPrinter) str(v ssa.Value, d int) string {
 	case *ssa.Slice:
 		return ep.str(x.X, d+1) + "[" + ep.str(x.Low, d+1) + ":" + ep.str(x.High, d+1) + "]"
 	case *ssa.IndexAddr:
-		return "&" + ep.str(x.X, d+1) + "[" + ep.str(x.Index, d+1) + "]"
+		return "&" + ep.str(x.X, d+1) + "[" + ep.dirIndex(x.X, x.Index, d) + "]"
 	case *ssa.Index:
-		return ep.str(x.X, d+1) + "[" + ep.str(x.Index, d+1) + "]"
+		return ep.str(x.X, d+1) + "[" + ep.dirIndex(x.X, x.Index, d) + "]"
 	case *ssa.Extract:
 		return fmt.Sprintf("%s#%d", ep.str(x.Tuple, d+1), x.Index)
 	case *ssa.Phi:
@@ -120,6 +120,25 @@ func (ep *exprPrinter) str(v ssa.Value, d int) string {
 		return ep.str(x.X, d+1) + "[" + ep.str(x.Index, d+1) + "]"
 	}
 	return fmt.Sprintf("%T", v)
+}
+
+// dirIndex prints an index; the constant index 0 / 1 into a two-element array (state kept per direction in an
+// array instead of a pair of fields) is renamed like the digit at the end of a field name.
+func (ep *exprPrinter) dirIndex(arr, idx ssa.Value, d int) string {
+	t := arr.Type().Underlying()
+	if pt, ok := t.(*types.Pointer); ok {
+		t = pt.Elem().Underlying()
+	}
+	iv := idx
+	if ep.res != nil {
+		iv = ep.res(idx)
+	}
+	if a, ok := t.(*types.Array); ok && a.Len() == 2 {
+		if k, isC := constInt(iv); isC && (k == 0 || k == 1) {
+			return strings.TrimPrefix(ep.rename(fmt.Sprintf("i%d", k)), "i")
+		}
+	}
+	return ep.str(idx, d+1)
 }
 
 // serializeRegion renders the blocks dominated by entry as a canonical list of effects.
@@ -198,6 +217,7 @@ func hasEffect(c *ssa.Call) bool {
 // pathSummaries: the observable behaviour of f per direction, path by path: the conditions tested (other than
 // the direction test), stores, effectful calls, sends and the values returned, with values resolved along the path.
 func pathSummaries(f *ssa.Function) (dir0, dir1 []string, ok bool) {
+	var curPath *upath
 	paths, okP := enumIterPathsU(f, 20000)
 	if !okP {
 		return nil, nil, false
@@ -208,6 +228,10 @@ func pathSummaries(f *ssa.Function) (dir0, dir1 []string, ok bool) {
 			return false, false
 		}
 		prm, isP := origin(cm.X).(*ssa.Parameter)
+		if isP && prm.Parent() != f && curPath != nil {
+			// the test sits in a helper shared by several callers: the path knows which argument it tests
+			prm, isP = curPath.valueAt(cm.X, curPath.indexOf(ft.If)).(*ssa.Parameter)
+		}
 		k, isC := constInt(cm.Y)
 		if !isP || !isC || k != 0 || prm.Parent() != f {
 			return false, false
@@ -220,6 +244,7 @@ func pathSummaries(f *ssa.Function) (dir0, dir1 []string, ok bool) {
 	for pi := range paths {
 		pt := &paths[pi]
 		dir := -1
+		curPath = pt
 		for _, ft := range pt.Conds {
 			if is, zero := isDirTest(ft); is {
 				if zero {
